@@ -391,6 +391,7 @@ func checkExec(sc *Scenario, ex *Exec) []Violation {
 	if sc.Check != nil {
 		vs = append(vs, sc.Check(ex.W, ex)...)
 	}
+	vs = append(vs, ex.W.quiescentViol...)
 	return vs
 }
 
@@ -792,6 +793,13 @@ func raceScenarios(prop, tier string) []*Scenario {
 				}
 			},
 			Check: check,
+		}
+		if prop == "C03" || prop == "C07" {
+			// "as soon as a slot is free": judged at every point at which nothing can run, not only at the end
+			sce.QuiescentCheck = func(w *World) []Violation {
+				d := w.dump()
+				return monPrompt(buildFacts(w.Log, d), d, w.S.Elapsed(), prop == "C03", prop == "C07")
+			}
 		}
 		hasTimer := false
 		for _, cf := range c.cfgs {
